@@ -799,6 +799,39 @@ pub fn generate(seed: u64, case: u64, max_steps: usize) -> Ran {
         cur = obs.clone();
         ran.results.push((rok, ok, msgs, obs));
     }
+    // appended to some histories (decided by a generator of its own, so that the random part above is what it always was):
+    // two accounts grant each other, then one grant is lowered to exactly the other's amount and deadline - the two
+    // entries then coincide in everything but their direction, in both tables
+    let mut r2 = Rng::new(seed ^ case.wrapping_mul(0x9E3779B97F4A7C15) ^ 0x5EED_C19);
+    if init_ok && r2.chance(1, 6) && n >= 3 {
+        let has = |a: usize, b: usize| cur.owner.iter().any(|e| e.0 == (a, b));
+        let pairs: Vec<(usize, usize)> =
+            (0..n).flat_map(|a| (0..n).map(move |b| (a, b))).filter(|(a, b)| a != b && *a != recv_id && *b != recv_id && !has(*a, *b) && !has(*b, *a)).collect();
+        if !pairs.is_empty() {
+            let (a, b) = *r2.pick(&pairs);
+            let y = 1 + r2.below(9) as u128;
+            let x = y + 1 + r2.below(9) as u128;
+            let (h, t) = (w.height, w.time);
+            let e = match r2.below(3) { 0 => None, 1 => Some(Exp::H(h + 50)), _ => Some(Exp::T(t + 50_000)) };
+            let mut steps = vec![
+                (a, Op::Inc { sp: Arg::Id(b), n: Uint128::new(x), e: e.clone() }),
+                (b, Op::Inc { sp: Arg::Id(a), n: Uint128::new(y), e: e.clone() }),
+                (a, Op::Dec { sp: Arg::Id(b), n: Uint128::new(x - y), e: None }),
+            ];
+            if r2.chance(1, 2) {
+                steps.push((b, Op::TransferFrom { o: Arg::Id(a), to: Arg::Id(b), n: Uint128::new(1) }));
+            }
+            steps.push((b, Op::Dec { sp: Arg::Id(a), n: Uint128::new(1), e: None }));
+            for (s, op) in steps {
+                let rok = w.recv_ok(&op);
+                let (ok, msgs) = w.call(h, t, s, &op);
+                let obs = w.observe();
+                ran.classes.push(format!("{}|{}", op_kind(&op), if ok { "ok" } else { "fail" }));
+                ran.trace.steps.push(Step::Call { h, t, s, op });
+                ran.results.push((rok, ok, msgs, obs));
+            }
+        }
+    }
     ran
 }
 
